@@ -370,7 +370,39 @@ def is_this_member(e, name=None):
     return name is None or e['name'] == name
 
 
-def get_facts(config, driver='api', extra_flags=None):
+def callee_of(facts, e):
+    """the function fact a call expression resolves to (None for externals / unresolved templates)"""
+    return facts.by_id.get(e.get('cid')) if e is not None else None
+
+
+def fn_nulls_member(g, name, depth=2, facts=None):
+    """g (a method) stores 0 / nullptr into its own member `name` (directly or through a helper it calls on itself)"""
+    if g is None:
+        return False
+    for _, _, _, x in g.walk():
+        if x.get('k') == 'bin' and x['op'] == '=' and is_this_member(x['l'], name) and cval(x['r']) == 0:
+            return True
+        if depth > 0 and facts is not None and x.get('k') == 'call' and x.get('cid') is not None and x.get('cid') != g.id:
+            ob = strip(x.get('obj')) if x.get('obj') is not None else None
+            if (ob is None or ob.get('k') == 'this') and fn_nulls_member(callee_of(facts, x), name, depth - 1, facts):
+                return True
+    return False
+
+
+def fn_calls(g, names, depth=2, facts=None):
+    """g calls (directly or through helpers of its own class) a function whose name is in `names`"""
+    if g is None:
+        return False
+    for _, _, _, x in g.walk():
+        if x.get('k') == 'call':
+            if x.get('cname') in names:
+                return True
+            if depth > 0 and facts is not None and x.get('cid') is not None and x.get('cid') != g.id and fn_calls(callee_of(facts, x), names, depth - 1, facts):
+                return True
+    return False
+
+
+def get_facts(config, driver='api', extra_flags=None, norm=False):
     """Run (or fetch from cache) the extractor for one driver TU under one
     configuration. The cache key covers every byte under /repo/include, the
     driver, the flags and the extractor binary, so any edit forces re-extraction."""
@@ -396,6 +428,9 @@ def get_facts(config, driver='api', extra_flags=None):
         data = json.load(fh)
     if data.get('errors'):
         raise AnalysisBroken('translation unit %s/%s does not compile' % (driver, config))
+    if norm:
+        from . import normalize as _nz
+        _nz.normalize(data)          # locals that merely name a side-effect-free expression are replaced by it (sv/normalize.py)
     return Facts(data, config, driver)
 
 
